@@ -365,3 +365,85 @@ TRANSFORMS.update({
     "ternary-to-if": ternary_to_if,
     "if-to-ternary": if_to_ternary,
 })
+
+
+# ------------------------------------------------------------------------------------------ every private def / class renamed
+def _anchor_words():
+    """Identifiers that the property records name as anchors: they are given, a check may look them up by name."""
+    import json
+    import os
+    import re
+
+    words = set()
+    p = os.path.join(os.path.dirname(os.path.dirname(os.path.abspath(__file__))), "properties.jsonl")
+    for line in open(p, encoding="utf-8"):
+        line = line.strip()
+        if line:
+            a = json.loads(line).get("anchors", {})
+            for m in a.get("mechanism", []):
+                words |= set(re.findall(r"[A-Za-z_][A-Za-z0-9_]*", m.get("where", "")))
+    return words
+
+
+class _RenamePrivate(ast.NodeTransformer):
+    def __init__(self, names):
+        self.names = names
+
+    def _n(self, s):
+        return s + "_rp" if s in self.names else s
+
+    def visit_FunctionDef(self, node):
+        node.name = self._n(node.name)
+        self.generic_visit(node)
+        return node
+
+    visit_AsyncFunctionDef = visit_FunctionDef
+
+    def visit_ClassDef(self, node):
+        node.name = self._n(node.name)
+        self.generic_visit(node)
+        return node
+
+    def visit_Name(self, node):
+        node.id = self._n(node.id)
+        return node
+
+    def visit_Attribute(self, node):
+        self.generic_visit(node)
+        node.attr = self._n(node.attr)
+        return node
+
+    def visit_ImportFrom(self, node):
+        for a in node.names:
+            a.name = self._n(a.name)  # the imported object, never the module path
+            if a.asname:
+                a.asname = self._n(a.asname)
+        return node
+
+    def visit_keyword(self, node):
+        self.generic_visit(node)
+        return node
+
+
+def rename_private(text: str, sources: dict) -> str:
+    """Every private (single leading underscore) function, method and class defined in the package gets a new name, in its
+    definition and at every reference; module paths, dunder names, attributes that are not definitions, and the names the
+    property records give as anchors keep theirs."""
+    cache = rename_private.__dict__.setdefault("_cache", {})
+    key = id(sources)
+    if key not in cache:
+        defined = set()
+        for t in sources.values():
+            for n in ast.walk(ast.parse(t)):
+                if isinstance(n, (ast.FunctionDef, ast.AsyncFunctionDef, ast.ClassDef)) and n.name.startswith("_") and not n.name.startswith("__"):
+                    defined.add(n.name)
+        cache.clear()
+        cache[key] = defined - _anchor_words()
+    names = cache[key]
+    tree = ast.parse(text)
+    # `__all__`-style strings and getattr strings do not occur for private names in this package; strings are left alone
+    return unparse(ast.fix_missing_locations(_RenamePrivate(names).visit(tree)))
+
+
+rename_private.needs_sources = True
+TRANSFORMS["rename-private"] = rename_private
